@@ -64,7 +64,11 @@ SigFields(sc) == [i \in {j \in 1..8 : ScHas(sc, KSigfield(j))} |-> ScGet(sc, KSi
 
 ----------------------------------------------------------------------------
 \* Hints
-NoHint == [rand |-> <<>>, prim |-> <<>>, pushed |-> <<>>, etext |-> <<>>, abi |-> <<>>,
+\*  rand   output of OP_RANDOM                  prim   results of named primitives
+\*  top    the implementation's top stack item after the step (only used to accept a
+\*         non-minimal but valid integer encoding)   pushed  items the step left on top
+\*  etext  serialised error text                   ct     check_template plugin answers
+NoHint == [rand |-> <<>>, prim |-> <<>>, pushed |-> <<>>, top |-> <<>>, etext |-> <<>>, abi |-> <<>>,
            ct |-> <<>>, adopt |-> FALSE]
 
 PrimIdx(h, name, args) == {i \in 1..Len(h.prim) : h.prim[i].n = name /\ h.prim[i].a = args}
@@ -134,9 +138,8 @@ CacheIf(v, flagno, key, item) == IF Bad(v) \/ ~FlagOn(Flags(v), FInt(flagno)) TH
 
 \* an integer result: the minimal encoding, or - when the log shows another
 \* valid encoding of the same value in that position - that one
-IntOut(h, k, x) == IF k >= 1 /\ k <= Len(h.pushed) /\ h.pushed[k] # <<>> /\ ValidEnc(h.pushed[k], x)
-                   THEN h.pushed[k] ELSE EncS(x)
-PutInt(v, h, x) == IF Bad(v) THEN v ELSE Put(v, IntOut(h, Len(h.pushed), x))
+IntOut(h, x) == IF h.top # <<>> /\ ValidEnc(h.top, x) THEN h.top ELSE EncS(x)
+PutInt(v, h, x) == IF Bad(v) THEN v ELSE Put(v, IntOut(h, x))
 
 \* result of a named primitive: r = list of byte strings, e = exception class or ""
 WithPrim(v, h, name, args, K(_, _)) ==
@@ -238,7 +241,7 @@ DoVerify(v) == LET a == Pop(v) IN
 \* greedy matcher of OP_CHECK_MULTISIG: for each signature in turn, try the
 \* remaining keys in order; a match removes the key.  conf = set of confirmed
 \* signature byte strings.
-RemoveAt(s, i) == SubSeq(s, 1, i - 1) \o SubSeq(s, i + 1, Len(s))
+DelAt(s, i) == SubSeq(s, 1, i - 1) \o SubSeq(s, i + 1, Len(s))
 RECURSIVE MsigKey(_, _, _, _, _, _)
 MsigKey(v, h, allowed, sig, keys, i) == \* x := index of the first remaining key that verifies, or 0
     IF Bad(v) THEN v
@@ -253,13 +256,13 @@ MsigSigs(v, h, allowed, sigs, keys, conf) == \* x := set of confirmed signatures
     ELSE LET a == MsigKey(v, h, allowed, Head(sigs), keys, 1) IN
          IF Bad(a) THEN a
          ELSE IF a.x = 0 THEN MsigSigs(a, h, allowed, Tail(sigs), keys, conf)
-         ELSE MsigSigs(a, h, allowed, Tail(sigs), RemoveAt(keys, a.x), conf \cup {Head(sigs)})
+         ELSE MsigSigs(a, h, allowed, Tail(sigs), DelAt(keys, a.x), conf \cup {Head(sigs)})
 
 ----------------------------------------------------------------------------
 \* Stack permutations with explicit operands (also used by MERKLEVAL)
 DoSwap(v, i, j) ==
     IF Bad(v) \/ i = j THEN v
-    ELSE IF ~(Len(v.stack) > Max(i, j)) THEN Raise(v, SEE)
+    ELSE IF ~(Len(v.stack) > MaxI(i, j)) THEN Raise(v, SEE)
     ELSE LET n == Len(v.stack) a == n - i b == n - j IN
          [v EXCEPT !.stack = [k \in 1..n |-> IF k = a THEN v.stack[b] ELSE IF k = b THEN v.stack[a] ELSE v.stack[k]]]
 
@@ -308,7 +311,7 @@ Utf8Offset(b, n) == \* number of bytes occupied by the first n code points
 \* The instructions.  Op(v, h): state after the instruction body, given that
 \* the opcode byte has been read.  r[i] = i-th operand read, p[i] = i-th item
 \* popped (p[1] was the top of the stack).
-Last(s) == s[Len(s)]
+LastOf(s) == s[Len(s)]
 
 OpPush0(v) == LET a == Rd(v, 1) IN IF Bad(a) THEN a ELSE Put(a, a.r[1])
 OpPush1(v) == LET a == Rd(v, 1) b == IF Bad(a) THEN a ELSE Rd(a, U8(a.r[1])) IN
@@ -347,9 +350,9 @@ OpReadCacheStackSize(v, h) == LET a == Pop(v) IN IF Bad(a) THEN a ELSE CountKey(
 
 OpAddInts(v, h) == LET a == Rd(v, 1) b == IF Bad(a) THEN a ELSE PopIntN(a, U8(a.r[1])) IN
                    IF Bad(b) THEN b ELSE PutInt(b, h, SumInts(b.p))
-OpSubInts(v, h) == LET a == Rd(v, 1) b == IF Bad(a) THEN a ELSE PopIntN(a, Max(U8(a.r[1]), 1)) IN
+OpSubInts(v, h) == LET a == Rd(v, 1) b == IF Bad(a) THEN a ELSE PopIntN(a, MaxI(U8(a.r[1]), 1)) IN
                    IF Bad(b) THEN b ELSE PutInt(b, h, SubInts(DecS(b.p[1]), Tail(b.p)))
-OpMultInts(v, h) == LET a == Rd(v, 1) b == IF Bad(a) THEN a ELSE PopIntN(a, Max(U8(a.r[1]), 1)) IN
+OpMultInts(v, h) == LET a == Rd(v, 1) b == IF Bad(a) THEN a ELSE PopIntN(a, MaxI(U8(a.r[1]), 1)) IN
                     IF Bad(b) THEN b
                     ELSE LET c == MulFold(b, h, DecS(b.p[1]), Tail(b.p)) IN
                          IF Bad(c) THEN c ELSE PutInt(c, h, c.x)
@@ -368,13 +371,13 @@ OpDivModInts(v, h, name) ==
 
 \* float items must be 4 bytes: checked as each item is popped
 PopF(v, cls) == LET a == Pop(v) IN IF Bad(a) THEN a
-                ELSE IF Len(Last(a.p)) # 4 THEN Raise(a, cls) ELSE a
+                ELSE IF Len(LastOf(a.p)) # 4 THEN Raise(a, cls) ELSE a
 RECURSIVE PopFN(_, _, _)
 PopFN(v, n, cls) == IF n <= 0 \/ Bad(v) THEN v ELSE PopFN(PopF(v, cls), n - 1, cls)
 
 OpAddFloats(v, h) == LET a == Rd(v, 1) b == IF Bad(a) THEN a ELSE PopFN(a, U8(a.r[1]), "TypeError") IN
                      WithPrim(b, h, "addf", b.p, LAMBDA c, r : Put(c, r[1]))
-OpSubFloats(v, h) == LET a == Rd(v, 1) b == IF Bad(a) THEN a ELSE PopFN(a, Max(U8(a.r[1]), 1), "TypeError") IN
+OpSubFloats(v, h) == LET a == Rd(v, 1) b == IF Bad(a) THEN a ELSE PopFN(a, MaxI(U8(a.r[1]), 1), "TypeError") IN
                      WithPrim(b, h, "subf", b.p, LAMBDA c, r : Put(c, r[1]))
 \* DIV_FLOAT / MOD_FLOAT: divisor from the tape; args <<dividend, divisor>>
 OpDivModFloat(v, h, name) ==
@@ -473,7 +476,7 @@ OpTryExcept(v) ==
 LoopTest(v, sub, iter) == \* v: the LOOP instruction's tape is on top
     IF Bad(v) THEN v
     ELSE IF v.stack = <<>> THEN Raise(v, "IndexError")
-    ELSE IF ~Truthy(Last(v.stack)) THEN v
+    ELSE IF ~Truthy(LastOf(v.stack)) THEN v
     ELSE IF ~(iter < v.cfg.callLimit) THEN Raise(v, SEE)
     ELSE Enter([v EXCEPT !.tapes[sub].pc = 0], sub, "loop", Flags(v), 0, <<>>, iter)
 
@@ -490,10 +493,11 @@ OpRandom(v, h) ==
     LET a == PopInt(v) IN
     IF Bad(a) THEN a
     ELSE LET n == DecS(a.p[1]) IN
-         IF n.neg THEN Raise(a, "Exception")
+         \* the size is checked against the item limit before anything is allocated
+         IF n.neg THEN Raise(a, SEE)
          ELSE IF ~IsSmall(n) \/ ToInt(n) > a.cfg.maxItemSize THEN Raise(a, SEE)
          ELSE IF Len(h.rand) # ToInt(n) THEN Raise(a, "BADHINT")
-         ELSE Put(a, h.rand)
+         ELSE Put([a EXCEPT !.obs.alloc = ToInt(n)], h.rand)
 
 \* SET_FLAG / UNSET_FLAG: the operand names a flag: a byte-string key of the
 \* default table if there is one, else (one byte) the integer flag of that number
@@ -530,7 +534,7 @@ OpSplit(v) ==
          ELSE Put(Put(a, Take(item, ToInt(idx))), Drop(item, ToInt(idx)))
 
 PopStr(v) == LET a == Pop(v) IN IF Bad(a) THEN a
-             ELSE IF ~Utf8Valid(Last(a.p)) THEN Raise(a, "UnicodeDecodeError") ELSE a
+             ELSE IF ~Utf8Valid(LastOf(a.p)) THEN Raise(a, "UnicodeDecodeError") ELSE a
 OpConcatStr(v) == LET a == PopStr(PopStr(v)) IN IF Bad(a) THEN a ELSE Put(a, a.p[2] \o a.p[1])
 OpSplitStr(v) ==
     LET a == PopStr(PopInt(v)) IN
@@ -621,7 +625,7 @@ SubFold(v, h, name, acc, n) == \* result left in scratch register x
     IF Bad(v) THEN v
     ELSE IF n <= 0 THEN [v EXCEPT !.x = acc]
     ELSE LET a == Pop(v)
-             b == WithPrim(a, h, name, <<acc, Last(a.p)>>, LAMBDA s, r : [s EXCEPT !.x = r[1]])
+             b == WithPrim(a, h, name, <<acc, LastOf(a.p)>>, LAMBDA s, r : [s EXCEPT !.x = r[1]])
          IN IF Bad(b) THEN b ELSE SubFold(b, h, name, b.x, n - 1)
 OpSubFold(v, h, name) ==
     LET a == Pop(Rd(v, 1)) IN
@@ -637,12 +641,21 @@ OpMasu(v, h) == LET a == PopN(v, 3) IN
     WithPrim(a, h, "masu", a.p, LAMBDA b, r :
         Put(Put(CacheIf(CacheIf(CacheIf(CacheIf(b, 3, <<114>>, r[1]), 4, <<82>>, r[2]), 6, <<84>>, a.p[1]),
                         8, <<115, 97>>, r[3]), r[2]), r[3]))
-OpMasv(v, h) == LET a == Pop(v)
-                    b == Pop(a)
-                    c == IF Bad(b) THEN b ELSE IF Len(b.p[2]) < 32 THEN Raise(b, "ValueError") ELSE Pop(b)
-    IN WithPrim(c, h, "masv", c.p, LAMBDA d, r :
-        Put(Put(Put(CacheIf(CacheIf(CacheIf(CacheIf(d, 4, <<82>>, r[3]), 5, <<116>>, r[1]), 6, <<84>>, r[2]),
-                            8, <<115, 97>>, r[4]), r[2]), r[3]), r[4]))
+\* MAKE_ADAPTER_SIG_PRIVATE: pops seed, t, m; pushes T = clamp(t)*G, R, sa.  The nonce
+\* (hence R and sa) is the implementation's choice: R and sa are taken from the hint
+\* (their relation to T, m and the key is what Adapter.tla / C17 decides); what is
+\* checked here: operands, order, T, and the flag-gated cache writes.
+OpMasv(v, h) ==
+    LET a == Pop(v)
+        b == Pop(a)
+        c == IF Bad(b) THEN b ELSE IF Len(b.p[2]) < 32 THEN Raise(b, "ValueError") ELSE Pop(b)
+    IN IF Bad(c) THEN c
+       ELSE LET t == Clamp(c.p[2], FALSE) IN
+            WithPrim(c, h, "derive_point", <<t>>, LAMBDA d, r :
+               IF Len(h.pushed) # 3 \/ Len(h.pushed[2]) # 32 \/ Len(h.pushed[3]) # 32 THEN Raise(d, "BADHINT")
+               ELSE LET T == r[1] R == h.pushed[2] sa == h.pushed[3] IN
+                    Put(Put(Put(CacheIf(CacheIf(CacheIf(CacheIf(d, 4, <<82>>, R), 5, <<116>>, t), 6, <<84>>, T),
+                                        8, <<115, 97>>, sa), T), R), sa))
 OpCas(v, h) == LET a == PopN(v, 5) IN WithPrim(a, h, "cas", a.p, LAMBDA b, r : Put(b, r[1]))
 OpDas(v, h) == LET a == Pop(v)
                    b == IF Bad(a) THEN a ELSE IF Len(a.p[1]) < 32 THEN Raise(a, "ValueError") ELSE PopN(a, 2)
@@ -655,7 +668,7 @@ OpInvoke(v, h) ==
     IF Bad(a) THEN a
     ELSE LET n == DecS(a.p[2]) IN
          IF n.neg THEN Raise(a, SEE)
-         ELSE IF ~IsSmall(n) THEN Raise(a, "IndexError")
+         ELSE IF ~IsSmall(n) THEN Raise([a EXCEPT !.stack = <<>>], "IndexError")  \* pops until empty
          ELSE LET b == PopN(a, ToInt(n)) IN
               IF Bad(b) THEN b
               ELSE IF ~TT(b).contr \/ b.p[1] \notin b.cfg.contracts THEN Raise(b, SEE)
@@ -681,7 +694,7 @@ CtLoop(v, h, flag, i, acc) == \* acc = <<all_valid, comparisons so far>>
          ELSE IF ~ScHas(a.cfg.sc, KSigfield(i)) THEN Raise(a, "KeyError")
          ELSE LET field == ScGet(a.cfg.sc, KSigfield(i)).v
                   n == acc[2] + 1
-                  ok == IF a.cfg.nct > 0 /\ TT(a).plug THEN (n <= Len(h.ct) /\ h.ct[n]) ELSE Last(a.p) = field
+                  ok == IF a.cfg.nct > 0 /\ TT(a).plug THEN (n <= Len(h.ct) /\ h.ct[n]) ELSE LastOf(a.p) = field
               IN CtLoop(a, h, flag, i + 1, <<acc[1] /\ ok, n>>)
 OpCheckTemplate(v, h) ==
     LET a == IF FInt(10) \notin DOMAIN Flags(v) \/ Flags(v)[FInt(10)] # 0 THEN RunSigExt(v) ELSE v
@@ -693,7 +706,7 @@ OpTaproot(v, h) ==
     IF Bad(a) THEN a
     ELSE IF Len(a.p[1]) # 32 THEN Raise(a, SEE)
     ELSE IF a.stack = <<>> THEN Raise(a, "IndexError")
-    ELSE IF Len(Last(a.stack)) = 32
+    ELSE IF Len(LastOf(a.stack)) = 32
          THEN LET b == PopN(a, 2) IN   \* p[2] = pubkey, p[3] = script
               WithPrim(b, h, "taproot", <<b.p[2], b.p[3]>>, LAMBDA c, r :
                   IF r[1] # c.p[1] THEN Put(c, False1)
@@ -831,8 +844,9 @@ Dispatch(v, h, op) ==
 Exec(v, h) ==
     LET t == TT(v)
         op == t.code[t.pc + 1]
-        a == [SetPc(v, t.pc + 1) EXCEPT !.r = <<>>, !.p = <<>>,
-                                       !.obs.last = <<Len(v.frames), t.pc, op>>]
+        a == [SetPc(v, t.pc + 1) EXCEPT !.r = <<>>, !.p = <<>>, !.obs.alloc = 0,
+                                       !.obs.last = <<Len(v.frames), t.pc, op>>,
+                                       !.obs.hist = IF v.cfg.hist THEN Append(@, <<v.sidx, Len(v.frames), t.pc, op>>) ELSE @]
         b == Dispatch(a, h, op)
     IN [b EXCEPT !.r = <<>>, !.p = <<>>, !.x = <<>>]
 
@@ -907,13 +921,13 @@ InitVM(cfg) ==
      fheap |-> <<tbl>>, dheap |-> <<[x \in {} |-> 0]>>,
      status |-> "run", exc |-> "none", lastexc |-> "none", sidx |-> 1,
      r |-> <<>>, p |-> <<>>, x |-> <<>>,
-     obs |-> [plug |-> 0, last |-> <<0, 0, 0>>]]
+     obs |-> [plug |-> 0, last |-> <<0, 0, 0>>, hist |-> <<>>, alloc |-> 0]]
 
 BaseCfg == [scripts |-> <<<<>>>>, auth |-> FALSE, maxItems |-> 1024, maxItemSize |-> 1024,
             callLimit |-> 128, sc |-> <<>>, bc0 |-> [x \in {} |-> 0], defaults |-> StdDefaults,
             toset |-> DOMAIN StdDefaults,
             flags |-> EmptyFn, nsig |-> 0, nct |-> 0, contracts |-> {}, now |-> <<>>,
-            forks |-> [x \in {} |-> ""], ret0 |-> FALSE]
+            forks |-> [x \in {} |-> ""], ret0 |-> FALSE, hist |-> FALSE]
 
 ----------------------------------------------------------------------------
 \* State predicates used as invariants by the configurations
